@@ -10,6 +10,7 @@
 //!
 //! usage: ring plan <plan.ndjson>          one run per line, steps as generated from Ring.tla
 //!        ring random <runs> <steps> <seed> <gap_permille> <max_ring_log2>
+//!        ring explore <ns> <nc> <depth>   every feasible operation sequence up to <depth> on the real code
 //! stdout: ndjson events (see specs/RingTrace.tla); every event of a step carries the observed
 //! state ("st": local sq head/tail, kernel-visible sq head/tail, cq head/tail; slot contents).
 use std::alloc::{alloc_zeroed, dealloc, Layout};
@@ -523,12 +524,82 @@ fn run_random(runs: u64, steps: u64, seed: u64, gap_permille: u64, max_log2: u64
     }
 }
 
+/// Bounded exhaustive exploration of the REAL code (no model in the loop): every sequence of at most `depth`
+/// operations that is feasible in the harness' bookkeeping and on the real shared words, from the given start
+/// positions.  Stateless: a sequence is re-executed from a fresh ring; one run is emitted per maximal sequence.
+fn explore(ns: u32, nc: u32, flags: u32, h: u32, sq0: u32, cq0: u32, depth: usize, run: &mut u64, out: &mut Out) {
+    fn rec(cfg: (u32, u32, u32, u32, u32, u32), path: &mut Vec<(&'static str, i64)>, depth: usize, run: &mut u64, out: &mut Out) {
+        let (ns, nc, flags, h, sq0, cq0) = cfg;
+        let mut sim = Sim::new(ns, nc, flags, h, sq0, cq0);
+        let mut evs = Vec::new();
+        for (k, (op, arg)) in path.iter().enumerate() {
+            let mut ev = sim.step(op, *arg);
+            ev["k"] = json!(k);
+            evs.push(ev);
+        }
+        let mut next: Vec<(&'static str, i64)> = Vec::new();
+        if !sim.dead && path.len() < depth {
+            if sim.held.is_some() {
+                next.push(("read", 0));
+            } else {
+                next.push(("get", 0));
+                for p in &sim.pending {
+                    next.push(("fill", p.0));
+                }
+                if sim.pending.is_empty() {
+                    next.push(("flush", 0));
+                }
+                next.push(("reap", 0));
+                let avail = Sim::ld(sim.sq_ktail).wrapping_sub(Sim::ld(sim.sq_khead)).min(ns);
+                for k in 1..=avail {
+                    next.push(("consume", i64::from(k)));
+                }
+            }
+            let used = Sim::ld(sim.cq_ktail).wrapping_sub(Sim::ld(sim.cq_khead));
+            let free = if used <= nc { nc - used } else { 0 };
+            for k in 1..=free {
+                next.push(("post", i64::from(k)));
+            }
+        }
+        if next.is_empty() {
+            let mut reset = json!({"ev":"reset","run":*run,"ns":ns,"nc":nc,"flags":flags,"h":h,"sq0":sq0,"cq0":cq0,"build":build(),
+                "steps": path.iter().map(|(o, a)| json!([o, a])).collect::<Vec<_>>()});
+            *run += 1;
+            let fresh = Sim::new(ns, nc, flags, h, sq0, cq0);
+            fresh.state(&mut reset);
+            out.ev(&reset);
+            for ev in &evs {
+                out.ev(ev);
+            }
+            return;
+        }
+        drop(sim);
+        for n in next {
+            path.push(n);
+            rec(cfg, path, depth, run, out);
+            path.pop();
+        }
+    }
+    let mut path = Vec::new();
+    rec((ns, nc, flags, h, sq0, cq0), &mut path, depth, run, out);
+}
+
 fn main() {
     quiet_panics();
     let a: Vec<String> = std::env::args().collect();
     let mut out = Out::new();
     match a[1].as_str() {
         "plan" => run_plan(&a[2], &mut out),
+        "explore" => {
+            // explore <ns> <nc> <depth> : start positions around the wrap
+            let n = |i: usize| a[i].parse::<u64>().unwrap();
+            let (ns, nc, depth) = (n(2) as u32, n(3) as u32, n(4) as usize);
+            let h = 8u32.max(2 * ns.max(nc));
+            let mut run = 0u64;
+            for s0 in [h - 2, h - 1, h] {
+                explore(ns, nc, 0, h, s0, s0, depth, &mut run, &mut out);
+            }
+        }
         "random" => {
             let n = |i: usize| a[i].parse::<u64>().unwrap();
             run_random(n(2), n(3), n(4), n(5), n(6), &mut out);
